@@ -7,6 +7,7 @@ package main
 
 import (
 	"fmt"
+	"strconv"
 	"strings"
 
 	"elaverif/harness/hx"
@@ -14,15 +15,63 @@ import (
 
 	"github.com/elastos/Elastos.ELA/common"
 	"github.com/elastos/Elastos.ELA/core/types"
+	"github.com/elastos/Elastos.ELA/dpos/state"
 )
 
 var sim = &regnet.Sim{Name: "c30", Maturity: 2, GuardFrom: 3}
 var pending *hx.Violation
 var lih uint32
 
+var lihState *state.VerifLIH
+var lihLast uint32
+var lihRolledBack bool
+
+func u32(x string) uint32 {
+	v, err := strconv.ParseUint(x, 10, 32)
+	if err != nil {
+		panic("harness: bad number " + x)
+	}
+	return uint32(v)
+}
+
 func exec(t []string) string {
 	pending = nil
 	switch t[0] {
+	case "lihnew":
+		lihState = state.NewVerifLIH(u32(t[1]))
+		lihLast = 0
+		lihRolledBack = false
+		return "ok"
+	case "lihset":
+		lihState.Set(u32(t[1]), u32(t[2]), u32(t[3]), t[4] != "0")
+		lihLast = u32(t[1])
+		return "ok"
+	case "lihstep":
+		l, d := lihState.Step(u32(t[1]))
+		// property, on the implementation alone: moving forward never lowers the recorded height
+		// (judged where C30_monotone applies: below height 6 the uint32 `height - 6` of the initialising
+		// branch wraps — only reachable with RevertToPOWStartHeight < 6, which no network has)
+		if ht := u32(t[1]); l < lihLast && ht >= 6 && lihLast <= ht+1 {
+			kind := "last-irreversible-height-decreased"
+			if lihRolledBack {
+				// the rollback closures of the advance entry do not restore LastIrreversibleHeight
+				// (C21-last-irreversible-height), so after a rollback it can sit above DPOSStartHeight
+				// and the next advance lowers it
+				kind = "last-irreversible-height-decreased-after-rollback"
+			}
+			pending = &hx.Violation{Kind: kind,
+				Detail: fmt.Sprintf("height %s: %d -> %d", t[1], lihLast, l)}
+		}
+		lihLast = l
+		return fmt.Sprintf("%d %d", l, d)
+	case "lihback":
+		l, d, err := lihState.Rollback(u32(t[1]))
+		if err != nil {
+			return "err"
+		}
+		lihRolledBack = true
+		lihLast = l
+		return fmt.Sprintf("%d %d", l, d)
 	case "irr":
 		out := sim.Exec(t)
 		lih = sim.N.Chain.GetState().LastIrreversibleHeight
@@ -61,7 +110,62 @@ func nontrivial(t []string, out string) bool {
 	return strings.HasPrefix(t[0], "deliver") && strings.HasPrefix(out, "side")
 }
 
+// lihStream drives tryUpdateLastIrreversibleHeight on a real State: initialisation, steady DPoS, the
+// PoW <-> DPoS hand-overs (mode and DPOSWorkHeight written as the revert transactions would), heights
+// around RevertToPOWStartHeight, and rollbacks.
+func lihStream(g *hx.Gen) {
+	r := g.R
+	for k := 0; k < g.N(25, 250); k++ {
+		g.Emit("reset")
+		rs := uint32(r.Pick(0, 6, 20, 50))
+		g.Emit("lihnew %d", rs)
+		h := rs + uint32(r.Intn(12))
+		if h < 6 && r.Chance(85) {
+			h = 6 + uint32(r.Intn(5))
+		}
+		lih, start, work, dpos := uint32(0), uint32(0), uint32(0), 1
+		if r.Chance(40) {
+			lih = h - uint32(r.Intn(int(h)+1))%8
+			if lih > h {
+				lih = 0
+			}
+			start = lih + uint32(r.Intn(3))
+			g.Emit("lihset %d %d %d %d", lih, start, work, dpos)
+		}
+		for i := 0; i < 12+r.Intn(25); i++ {
+			c := r.Intn(100)
+			switch {
+			case c < 70:
+				h++
+				g.Emit("lihstep %d", h)
+			case c < 80: // revert to PoW: mode changes, the work height is cleared
+				dpos = 0
+				out := strings.Fields(g.Emit("lihstep %d", h+1))
+				h++
+				if len(out) == 2 {
+					g.Emit("lihset %s %s 0 0", out[0], out[1])
+				}
+			case c < 90: // revert to DPoS at height h: DPOSWorkHeight = h, mode DPOS; next block is the hand-over
+				dpos = 1
+				out := strings.Fields(g.Emit("lihstep %d", h+1))
+				h++
+				if len(out) == 2 {
+					g.Emit("lihset %s %s %d 1", out[0], out[1], h)
+				}
+			default: // roll a few heights back and go on from there
+				back := uint32(1 + r.Intn(4))
+				if back > h {
+					back = h
+				}
+				h -= back
+				g.Emit("lihback %d", h)
+			}
+		}
+	}
+}
+
 func gen(g *hx.Gen) {
+	lihStream(g)
 	nh := g.N(30, 250)
 	for i := 0; i < nh; i++ {
 		one(g)
